@@ -50,6 +50,18 @@ chk('C13', 'model_checking',
     'Trusted: clang lowering (one clang-compat rewrite of the v1 engine_storage delegating constructor), lsx, the abstract sqlite3 model and stat() model, z3. Counterexamples are solver models over the model\'s '
     'answers; they are not replayed against a real SQLite (stated). One listed known finding (3.0.0 accepted).',
     'symbolic execution of LLVM IR (lsx, z3) over an abstract sqlite3/file-system model', 'DESIGN.md §3 C13')
+chk('C14', 'model_checking',
+    'Symbolic fault injection: every public mutating operation of the schema-2.x implementation (41 operations: 27 track setters incl. update, 9 crate operations, 5 database operations) '
+    'is executed from the public wrapper down through sqlite_transaction and sqlite_modern_cpp to an abstract sqlite3 model with transaction state; exactly one write statement or COMMIT fails, '
+    'at a position the executor forks over on every path (all k literally). Oracle at the end of the call: the failure was reported by an exception, no transaction is open, no write took effect.',
+    'Trusted: clang lowering, lsx, lsx/models_sqlite.py (statement classification from the real SQL text; SQLite statement-level atomicity assumed; busy COMMIT leaves the transaction open), z3. '
+    'Schema 1.x operations: see DESIGN.md (covered only if listed in the evidence). Four listed known findings (2.x two-statement setters). Counterexamples are not replayed against a real SQLite.',
+    'symbolic execution of LLVM IR (lsx, z3) with solver-chosen fault position over an abstract sqlite3 model', 'DESIGN.md §3 C14')
+chk('C16', 'model_checking',
+    'Symbolic execution of every public observing operation of the schema-2.x implementation (50 operations of track, crate and database) over an abstract sqlite3 model whose SELECTs answer arbitrary rows '
+    '(exactly one row, and 0..1 rows): on no path may any statement other than a read be prepared. Statement text is taken from the concrete bytes passed to sqlite3_prepare_v2, so dynamically built SQL is covered.',
+    'Trusted: clang lowering, lsx, lsx/models_sqlite.py, z3. verify() and loading are outside this check (file opening is looked at under C13); schema 1.x operations: see DESIGN.md.',
+    'symbolic execution of LLVM IR (lsx, z3) over an abstract sqlite3 model', 'DESIGN.md §3 C16')
 chk('C18', 'model_checking',
     'Symbolic execution of the real track_table::add/get/update/remove/exists and all ~45 per-column getter/setter pairs together with the real sqlite_modern_cpp binders over a key/value model of the sqlite3 C API: '
     'all 48 row fields symbolic (strings as symbolic bytes, so two swapped same-typed columns differ for every value), one run per schema column-list range and optional-presence pattern. '
